@@ -6,19 +6,19 @@
 (* cancelled), or one of the acknowledged known findings (KF_* actions, narrowly guarded).            *)
 EXTENDS TraceBase
 CONSTANT Acknowledged
-VARIABLES l, K, sent, calls, cancelled, closeStarted, closeDone, connClosed, closeHung, chan, got
-vars == <<l, K, sent, calls, cancelled, closeStarted, closeDone, connClosed, closeHung, chan, got>>
+VARIABLES l, K, sent, calls, cancelled, closeStarted, closeDone, connClosed, closeHung, chan, got, stolen
+vars == <<l, K, sent, calls, cancelled, closeStarted, closeDone, connClosed, closeHung, chan, got, stolen>>
 E == Trace[l]
 IsEvent(e) == l <= Len(Trace) /\ Trace[l].ev = e /\ l' = l + 1
 Init == /\ l = 1 /\ K = 0 /\ sent = 0 /\ calls = << >> /\ cancelled = {"cancelled"} /\ closeStarted = FALSE
-        /\ closeDone = FALSE /\ connClosed = FALSE /\ closeHung = FALSE /\ chan = 0 /\ got = {} /\ HWInit
+        /\ closeDone = FALSE /\ connClosed = FALSE /\ closeHung = FALSE /\ chan = 0 /\ got = {} /\ stolen = FALSE /\ HWInit
 T_Reset == /\ IsEvent("Reset") /\ K' = 0 /\ sent' = 0 /\ calls' = << >> /\ cancelled' = {"cancelled"}
-           /\ closeStarted' = FALSE /\ closeDone' = FALSE /\ connClosed' = FALSE /\ closeHung' = FALSE /\ chan' = 0 /\ got' = {}
-T_Setup == IsEvent("Setup") /\ K' = E.k /\ chan' = E.chan /\ UNCHANGED <<sent, calls, cancelled, closeStarted, closeDone, connClosed, closeHung, got>>
+           /\ closeStarted' = FALSE /\ closeDone' = FALSE /\ connClosed' = FALSE /\ closeHung' = FALSE /\ chan' = 0 /\ got' = {} /\ stolen' = FALSE
+T_Setup == IsEvent("Setup") /\ K' = E.k /\ chan' = E.chan /\ UNCHANGED <<sent, calls, cancelled, closeStarted, closeDone, connClosed, closeHung, got, stolen>>
 T_PeerSend == IsEvent("PeerSend") /\ sent' = sent + E.n
-              /\ UNCHANGED <<K, calls, cancelled, closeStarted, closeDone, connClosed, closeHung, chan, got>>
+              /\ UNCHANGED <<K, calls, cancelled, closeStarted, closeDone, connClosed, closeHung, chan, got, stolen>>
 T_Cancel == IsEvent("Cancel") /\ cancelled' = cancelled \cup {E.ctx}
-            /\ UNCHANGED <<K, sent, calls, closeStarted, closeDone, connClosed, closeHung, chan, got>>
+            /\ UNCHANGED <<K, sent, calls, closeStarted, closeDone, connClosed, closeHung, chan, got, stolen>>
 
 IsRecv(c) == c = "next"
 BlockedRecvs == {i \in DOMAIN calls : /\ calls[i].st = "pending" /\ calls[i].call \in {"next", "until"} /\ calls[i].wait
@@ -35,7 +35,7 @@ T_CallStart ==
                                    \* receivers that were blocked on an empty queue when this call started
                                    blockers |-> IF NothingQueued THEN BlockedRecvs ELSE {}])
     /\ closeStarted' = (closeStarted \/ E.call \in {"close", "connclose"})
-    /\ UNCHANGED <<K, sent, cancelled, closeDone, connClosed, closeHung, chan, got>>
+    /\ UNCHANGED <<K, sent, cancelled, closeDone, connClosed, closeHung, chan, got, stolen>>
 
 CtxGone(c) == c.ctx \in cancelled \/ "conn" \in cancelled
 NPendingRecv == Cardinality({i \in DOMAIN calls : calls[i].st = "pending" /\ calls[i].call \in {"next", "until"}})
@@ -53,10 +53,11 @@ T_CallEnd ==
                         /\ E.val \notin got /\ E.val >= 1 /\ E.val <= sent
                         /\ (UntilUsed \/ E.val <= Cardinality(got) + NPendingRecv + (IF LogoutRunning THEN 1 ELSE 0))
                         /\ got' = got \cup {E.val}
-                   [] E.outcome = "ctxerr" -> CtxGone(c) /\ UNCHANGED got       \* wraps the context's error
-                   [] E.outcome = "closed" -> closeStarted /\ UNCHANGED got    \* reports the closed condition
-                   [] E.outcome = "noready" -> ~c.wait /\ UNCHANGED got
-                   [] E.outcome = "err" -> (connClosed \/ closeStarted) /\ UNCHANGED got
+                        /\ stolen' = (stolen \/ LogoutRunning)     \* it may have been the answer to a logout
+                   [] E.outcome = "ctxerr" -> CtxGone(c) /\ UNCHANGED <<got, stolen>>       \* wraps the context's error
+                   [] E.outcome = "closed" -> closeStarted /\ UNCHANGED <<got, stolen>>    \* reports the closed condition
+                   [] E.outcome = "noready" -> ~c.wait /\ UNCHANGED <<got, stolen>>
+                   [] E.outcome = "err" -> (connClosed \/ closeStarted) /\ UNCHANGED <<got, stolen>>
                    [] OTHER -> FALSE
               /\ (c.afterClose => E.outcome = "closed")               \* after Close every call reports it
               /\ UNCHANGED <<closeDone, connClosed>>
@@ -70,22 +71,22 @@ T_CallEnd ==
                    [] E.outcome = "err" -> (connClosed \/ closeStarted)
                    [] OTHER -> FALSE
               /\ (c.afterClose => E.outcome = "closed")
-              /\ UNCHANGED <<closeDone, connClosed, got>>
+              /\ UNCHANGED <<closeDone, connClosed, got, stolen>>
          [] c.call = "send" ->
               /\ E.outcome \in {"ok", "ctxerr", "closed", "err"}
               /\ (c.ctx = "cancelled" => E.outcome # "ok" /\ E.wrote = 0)   \* a cancelled send writes nothing
               /\ (c.afterClose => E.outcome = "closed")
               /\ (E.outcome = "closed" => closeStarted) /\ (E.outcome = "ctxerr" => CtxGone(c) \/ c.ctx = "cancelled")
-              /\ UNCHANGED <<closeDone, connClosed, got>>
+              /\ UNCHANGED <<closeDone, connClosed, got, stolen>>
          [] c.call = "close" ->
               /\ E.outcome \in {"ok", "err", "closed"}
               /\ (E.outcome = "closed" => c.afterClose \/ closeStarted)
-              /\ closeDone' = TRUE /\ UNCHANGED <<connClosed, got>>
+              /\ closeDone' = TRUE /\ UNCHANGED <<connClosed, got, stolen>>
          [] c.call = "connclose" ->
               /\ E.outcome \in {"ok", "err"}
               /\ E.transportClosed                                    \* ... closes the transport
               /\ E.readerEnded                                        \* ... and ends the reader
-              /\ closeDone' = TRUE /\ connClosed' = TRUE /\ UNCHANGED got
+              /\ closeDone' = TRUE /\ connClosed' = TRUE /\ UNCHANGED <<got, stolen>>
          [] OTHER -> FALSE
     /\ Done(E.id)
     /\ UNCHANGED <<K, sent, cancelled, closeStarted, closeHung, chan>>
@@ -99,24 +100,26 @@ T_HungRecv ==
     /\ LET c == calls[E.id] IN
        \/ (c.wait /\ ~CtxGone(c) /\ NothingQueued /\ ~closeDone /\ ~c.afterClose)
        \/ closeHung                     \* consequence of an acknowledged hung Close (waiting writer blocks new readers)
-    /\ Done(E.id) /\ UNCHANGED <<K, sent, cancelled, closeStarted, closeDone, connClosed, closeHung, chan, got>>
+    /\ Done(E.id) /\ UNCHANGED <<K, sent, cancelled, closeStarted, closeDone, connClosed, closeHung, chan, got, stolen>>
 \* NextPackageUntil may keep waiting only while its context is live and the channel is open
 T_HungUntil ==
     /\ IsEvent("Hung") /\ E.id \in DOMAIN calls /\ calls[E.id].call = "until"
     /\ \/ (~CtxGone(calls[E.id]) /\ ~closeDone /\ ~calls[E.id].afterClose)
        \/ closeHung
-    /\ Done(E.id) /\ UNCHANGED <<K, sent, cancelled, closeStarted, closeDone, connClosed, closeHung, chan, got>>
+    /\ Done(E.id) /\ UNCHANGED <<K, sent, cancelled, closeStarted, closeDone, connClosed, closeHung, chan, got, stolen>>
 T_HungOther ==
     /\ IsEvent("Hung") /\ E.id \in DOMAIN calls /\ calls[E.id].call = "send" /\ closeHung
-    /\ Done(E.id) /\ UNCHANGED <<K, sent, cancelled, closeStarted, closeDone, connClosed, closeHung, chan, got>>
+    /\ Done(E.id) /\ UNCHANGED <<K, sent, cancelled, closeStarted, closeDone, connClosed, closeHung, chan, got, stolen>>
 \* Known finding: Close never returns while the reader goroutine is parked on a full package queue
 \* (it holds the read lock across the blocking send; Close needs the write lock).
 KF_CloseBehindParkedReader ==
     /\ "C13-close-behind-parked-reader" \in Acknowledged
     /\ IsEvent("Hung") /\ E.id \in DOMAIN calls /\ calls[E.id].call \in {"close", "connclose"}
-    /\ sent - recvd - (IF LogoutRunning THEN 1 ELSE 0) >= K + 1     \* more packages sent than the queue holds, nobody receives
+    \* more packages sent than the queue holds and nobody receives them (the logout of a Close on channel 0
+    \* receives one itself - unless the connection's context was cancelled before, then it fails at once)
+    /\ sent - recvd - (IF LogoutRunning /\ "conn" \notin cancelled THEN 1 ELSE 0) >= K + 1
     /\ KFUsed("C13-close-behind-parked-reader", l)
-    /\ closeHung' = TRUE /\ Done(E.id) /\ UNCHANGED <<K, sent, cancelled, closeStarted, closeDone, connClosed, chan, got>>
+    /\ closeHung' = TRUE /\ Done(E.id) /\ UNCHANGED <<K, sent, cancelled, closeStarted, closeDone, connClosed, chan, got, stolen>>
 \* Known finding: Close does not return while another goroutine is blocked in NextPackage with a live
 \* context (it holds the read lock across its select).
 KF_CloseBehindBlockedReceiver ==
@@ -126,16 +129,16 @@ KF_CloseBehindBlockedReceiver ==
        \/ PendingRecvLive      \* or one is blocked now (packages sent after Close began to wait cannot reach it:
                                \* the waiting writer also keeps the reader goroutine from taking the read lock)
     /\ KFUsed("C13-close-behind-blocked-receiver", l)
-    /\ closeHung' = TRUE /\ Done(E.id) /\ UNCHANGED <<K, sent, cancelled, closeStarted, closeDone, connClosed, chan, got>>
+    /\ closeHung' = TRUE /\ Done(E.id) /\ UNCHANGED <<K, sent, cancelled, closeStarted, closeDone, connClosed, chan, got, stolen>>
 \* A Close that runs the logout sequence waits for the server's answer for up to one minute (the
 \* library's logout context).  When every package the peer sent was received by somebody else, that
 \* wait is still running when the watchdog expires: bounded, but not observed to its end.
 T_HungLogoutWait ==
     /\ IsEvent("Hung") /\ E.id \in DOMAIN calls /\ calls[E.id].call \in {"close", "connclose"}
-    /\ LogoutRunning /\ recvd = sent
-    /\ closeHung' = TRUE /\ Done(E.id) /\ UNCHANGED <<K, sent, cancelled, closeStarted, closeDone, connClosed, chan, got>>
+    /\ LogoutRunning /\ (recvd = sent \/ stolen)     \* stolen: a receiver got a package while the logout was waiting for its answer
+    /\ closeHung' = TRUE /\ Done(E.id) /\ UNCHANGED <<K, sent, cancelled, closeStarted, closeDone, connClosed, chan, got, stolen>>
 T_End == IsEvent("End") /\ (\A i \in DOMAIN calls : calls[i].st = "done")
-         /\ UNCHANGED <<K, sent, calls, cancelled, closeStarted, closeDone, connClosed, closeHung, chan, got>>
+         /\ UNCHANGED <<K, sent, calls, cancelled, closeStarted, closeDone, connClosed, closeHung, chan, got, stolen>>
 Next == T_Reset \/ T_Setup \/ T_PeerSend \/ T_Cancel \/ T_CallStart \/ T_CallEnd \/ T_HungRecv \/ T_HungUntil \/ T_HungOther
         \/ T_HungLogoutWait \/ KF_CloseBehindParkedReader \/ KF_CloseBehindBlockedReceiver \/ T_End
 Spec == Init /\ [][Next]_vars
